@@ -109,6 +109,12 @@ def run_case(case, ctx):
                 edzed.Not(f"e{i}", on_output=edzed.Event(
                     '_ctrl', 'abort', efilter=edzed.not_from_undef)).connect(inp)
                 objs[i] = inp
+            elif kind == 'HN':
+                # the outer block forwards the event; the inner one refuses it with a mere
+                # parameter error (a 'put' without value) - for the OUTER block that is an
+                # exception inside its event handler: fatal
+                cnt = edzed.Counter(f"hncnt{i}")
+                objs[i] = edzed.Repeat(f"e{i}", dest=cnt, etype='put', interval=1000, count=0)
             elif kind == 'EI':
                 def failing(value, i=i):
                     fired.append(('E', i))
@@ -180,6 +186,9 @@ def run_case(case, ctx):
         if case.get('harmless') == 'restore_fail':
             probes.make_probe('rf', {'persist', 'initdef'}, hist, {'restore': 'raise'},
                               persistent=True, initdef=1)
+        if case.get('slow_init'):
+            probes.make_probe('slowinit', {'ainit', 'initdef'}, hist, {'init_async': ('ok', 6.0)},
+                              init_timeout=8, initdef=1)
         if case.get('harmless') == 'stop_fail':
             probes.make_probe('sf', set(), hist, {'init_regular': 'set', 'stop': 'raise'})
         return objs
@@ -199,6 +208,9 @@ def run_case(case, ctx):
                 edzed.ExtEvent(objs[i]).send(1)
             elif kind == 'HC':
                 edzed.ExtEvent(objs[i]).send(1)
+            elif kind == 'HN':
+                fired.append(('E', i))
+                edzed.ExtEvent(objs[i], 'put').send()      # no 'value'
             elif kind == 'A':
                 exc = SrcError(f"A{i}")
                 excs[i] = exc
@@ -238,7 +250,7 @@ def run_case(case, ctx):
         def schedule(simtask_getter, runtask_getter):
             for i, (kind, t) in enumerate(actions):
                 when = t0 + t
-                if kind in ('H', 'C', 'E', 'A', 'Z', 'ZC', 'EC', 'HC'):
+                if kind in ('H', 'C', 'E', 'A', 'Z', 'ZC', 'EC', 'HC', 'HN'):
                     loop.call_at(when, fire, i, kind, objs, circuit)
                 elif kind == 'X':
                     async def do_shutdown(i=i):
@@ -346,6 +358,14 @@ def run_case(case, ctx):
                 await asyncio.sleep(12)
                 fired.append(('R', 'idle'))
             supporting.append(idle())
+            if mode == 'N':
+                # edzed.run() without supporting coroutines: run_forever() runs in the very task
+                # that is being cancelled; a final guard ends a simulation that ignores it
+                for coro in supporting:
+                    coro.close()
+                supporting = []
+                loop.call_at(t0 + 12, lambda: (fired.append(('guard', 'N')), circuit.abort(
+                    asyncio.CancelledError('vf: final guard'))))
             runtask = asyncio.create_task(edzed.run(*supporting))
             schedule(lambda: None, lambda: runtask)
             try:
@@ -459,6 +479,15 @@ def judge(case, res, fired, excs, hist, ctx):
     else:
         ctx.count('run_mode_cases')
         run_exc = res.get('run_exc')
+        if fired and 'end_time' in res:
+            t_first = min(t for _k, t in case['actions'])
+            if res['end_time'] > t_first + 4.0:
+                # (clean-up: the slowest stop_async takes 0.5 s, stop_timeout 3 s)
+                raise core.Violation(
+                    'stop-request-ignored',
+                    f"{where}: run() returned {res['end_time']:.2f} s after its start, the first "
+                    f"termination cause fired at {t_first} s")
+            ctx.count('prompt_termination_checked')
         if first_fatal is not None:
             kind, i = first_fatal
             ctx.count('cases_with_error_compared')
@@ -508,6 +537,15 @@ def gen(ctx):
     for a in kindsR + ['Z']:
         cases.append({'mode': 'R', 'actions': [['Z', 1], [a, 1]]})
         cases.append({'mode': 'R', 'actions': [[a, 1], ['Z', 2]]})
+    # a stop request arriving while the asynchronous initialisation is in progress
+    for k in ('K', 'T', 'R', 'S'):
+        cases.append({'mode': 'U', 'actions': [[k, 1]], 'slow_init': True})
+    cases.append({'mode': 'N', 'actions': [['K', 1]], 'slow_init': True})
+    cases.append({'mode': 'N', 'actions': [['K', 1]]})
+    cases.append({'mode': 'N', 'actions': [['T', 1]], 'slow_init': True})
+    cases.append({'mode': 'N', 'actions': [['K', 7]], 'slow_init': True})
+    for k in ('X', 'A', 'Z'):
+        cases.append({'mode': 'R', 'actions': [[k, 1]], 'slow_init': True})
     # abort requested from inside the simulation task during the synchronous initialisation
     cases.append({'mode': 'R', 'actions': [['EI', 0]]})
     cases.append({'mode': 'U', 'actions': [['EI', 0]]})
@@ -518,7 +556,7 @@ def gen(ctx):
     cases.append({'mode': 'U', 'actions': [['S', 1], ['SC', 0]]})
     cases.append({'mode': 'U', 'actions': [['S', 1], ['SC', 0], ['SC', 0]]})
     cases.append({'mode': 'U', 'actions': [['S', 1], ['SC', 0], ['R', 2]]})
-    for inner in ('EC', 'HC'):
+    for inner in ('EC', 'HC', 'HN'):
         cases.append({'mode': 'R', 'actions': [[inner, 1]]})
         cases.append({'mode': 'U', 'actions': [[inner, 1]]})
         for a in kindsR:
